@@ -42,11 +42,18 @@ def strategy_(draw, tier):
                 if draw(st.integers(0, 2)) == 0:
                     omit.append([i, j])
     spec['omit'] = omit
+    # every returned increment is one and the same Python object (a value
+    # computed once and re-used): two updates that are the same object are
+    # still two updates
+    spec['same_object'] = draw(st.integers(0, 3)) == 0
     return spec
 
 
 def strategy(tier):
     return strategy_(tier)
+
+
+SAME_OBJECT = 1 << 40          # one int object (not a cached small int)
 
 
 def build(spec, ctx, increments=True):
@@ -63,6 +70,8 @@ def build(spec, ctx, increments=True):
                 continue
             inc = 1 << bit
             bit += 1
+            if spec.get('same_object'):
+                inc = SAME_OBJECT
             put(update, view, inc)
             incs.append((p['name'], view, node, inc))
         proc = kit.WireProcess({
@@ -100,6 +109,8 @@ def run_case(spec):
     res.label(*labs)
     if spec.get('omit'):
         res.label('partial_update')
+    if spec.get('same_object'):
+        res.label('same_object_updates')
     res.nontrivial = bool(labs & {'dotdot', 'split', 'rename', 'glob',
                                   'alias.same_process', 'glob.subtopology'})
     ctx = kit.Context()
